@@ -13,7 +13,7 @@ class C19(Prop):
     COQ_TARGETS = ["theories/Properties/C19.vo"]
     MODEL_TARGETS = ["theories/Model/Process.vo", "theories/Spec/ProcessSpec.vo", "theories/Model/ProcessCase.vo"]
     CASE_HEADER = "From Boreal Require Import Base.Prelude Model.Process Spec.ProcessSpec Model.ProcessCase."
-    HARNESS_SUB = "c19"
+    HARNESS_BINS = ("c19",)
     KF = {}
     RULE = ("synthetic /proc/<pid>/{maps,mem,pagemap} and backing files are materialised on disk and walked by the real "
             "LinuxProcessMemory (hook verif_process_memory) with a generated op sequence over next/fetch/reset; page "
